@@ -68,5 +68,13 @@ META["C03"] = {
     "note": "Trusted: Lean kernel, transcription (replay-validated), the assumption that an element is 'a typed value' iff its type name is known to the vocabulary (validated by the C12 probes). 'Hidden recipients still receive the delivery' is checked under C02.",
 }
 
+META["C05"] = {
+    "category": "proof",
+    "design_ref": "DESIGN.md section 5 / C05",
+    "technique": "Lean 4: 'BatchDeliver only after a successful SetOutbox' proved for Send and outbox POST against every application (monitor judgement; the pre-delivery phase is shown delivery-free by re-running the compositional lock proofs with the payload predicate 'nothing'), its trace-level meaning proved, and the outbox history theorem (ids.foldl prependId lists the ids newest first) by induction; trace replay of the real code + spec monitor for wrap / fresh ids / Create normalisation (set equalities) / store / outbox page / Location",
+    "text": "Proved for all inputs, configurations and application answers: on every run of the transcribed Send and PostOutbox every BatchDeliver event is preceded by a SetOutbox that succeeded; any number of accepted posts leave the outbox page listing their ids newest first in front of the old items (given a Database that returns what it stored). The value-level clauses (wrapping, fresh ids, attribution/recipient unions, objects stored, Location) are decided per run by an independent set-level monitor over the real code's traces and by call-for-call agreement with the model; they are not yet theorems.",
+    "note": "Trusted: Lean kernel, transcription (replay-validated), fakes. 'Nothing is delivered after a failed step' is proved only in the form 'no delivery before SetOutbox succeeded'; that a failed earlier step prevents SetOutbox is checked on traces (outboxOrderMon), not proved.",
+}
+
 _ALL = ["C%02d" % i for i in range(1, 21)]
 NOT_APPLICABLE = [{"property_id": p, "reason": PENDING} for p in _ALL if p not in META]
